@@ -557,6 +557,13 @@ class ConfigParser(object):
     # Parse tree can start with a range definition
     # or go straight to a modified instance or potential definition.
     if name == 'range_start':
+      # As for parameters: a literal outside the range of floating point numbers is read as inf, or cannot be converted at all
+      try:
+        finite = not math.isinf(float(first['start']))
+      except OverflowError:
+        finite = False
+      if not finite:
+        raise ConfigParserException("The start of a range is too large to be represented as a number.")
       range_defn = MultiRangeDefinitionTuple(
         range_type = first['range_type'],
         start = first['start'])
